@@ -319,6 +319,7 @@ def leg(ck, drv, n):
     st = {"propagation_blocks": len(blocks), "propagation_blocks_changed": 0, "propagation_blocks_changed_and_SafeBlock": 0,
           "propagation_blocks_meaning_changed": 0, "propagation_single_definition_blocks": 0,
           "propagation_single_definition_SafeBlock": 0, "propagation_single_definition_meaning_changed": 0,
+          "propagation_single_definition_no_invoke_blocks": 0, "propagation_single_definition_no_invoke_SafeBlock": 0,
           "propagation_single_definition_pure_blocks": 0, "propagation_single_definition_pure_SafeBlock": 0,
           "propagation_meaning_changed_unclassified": 0}
     unclassified = []
@@ -336,6 +337,9 @@ def leg(ck, drv, n):
         st["propagation_single_definition_blocks"] += bool(b.get("single"))
         st["propagation_single_definition_SafeBlock"] += bool(b.get("single")) and is_safe
         pure = not _has(b, lambda e: e[0] == "f" or (e[0] == "b" and e[1] in "/%"))
+        noinv = not _has(b, lambda e: e[0] == "f")
+        st["propagation_single_definition_no_invoke_blocks"] += bool(b.get("single")) and noinv
+        st["propagation_single_definition_no_invoke_SafeBlock"] += bool(b.get("single")) and noinv and is_safe
         st["propagation_single_definition_pure_blocks"] += bool(b.get("single")) and pure
         st["propagation_single_definition_pure_SafeBlock"] += bool(b.get("single")) and pure and is_safe
         # leg S on the real pass alone (an evaluator of the canonical text, written here)
